@@ -2,7 +2,7 @@ import os
 
 from typing import Any, Optional
 
-from antlr4 import CommonTokenStream, FileStream
+from antlr4 import CommonTokenStream, FileStream, Token
 from afmparser import AFMParser
 from afmparser.AFMLexer import AFMLexer
 
@@ -41,6 +41,9 @@ class AFMReader(TextToModel):
         parser.removeErrorListeners()
         parser.addErrorListener(error_listener)
         self.parse_tree = parser.feature_model()
+        if parser.getCurrentToken().type != Token.EOF:
+            # the grammar's start rule does not demand the end of the file
+            error_listener.errors.append("input left unparsed after the feature model")
         if error_listener.errors:
             raise FlamaException("Parsing failed due to syntax errors: "
                                  + "; ".join(error_listener.errors))
